@@ -862,6 +862,8 @@ pub enum RareCase {
     Cmap(CmapCase),
     Aat(AatCase),
     Misc(MiscCase),
+    Device(DeviceCase),
+    Charset(CharsetCase),
 }
 
 fn wrap_font(tables: Vec<([u8; 4], Vec<u8>)>) -> Vec<u8> {
@@ -899,6 +901,8 @@ pub fn build(c: &RareCase) -> Vec<Vec<u8>> {
         }
         RareCase::Aat(a) => vec![aat_bytes(a)],
         RareCase::Misc(m) => vec![misc_bytes(m)],
+        RareCase::Device(d) => vec![device_bytes(d)],
+        RareCase::Charset(c) => vec![charset_bytes(c)],
     }
 }
 
@@ -911,6 +915,8 @@ pub fn observe(c: &RareCase, bufs: &[&[u8]]) -> Obs {
         RareCase::Cmap(m) => obs_cmap(m, bufs, &mut o),
         RareCase::Aat(a) => obs_aat(a, bufs, &mut o),
         RareCase::Misc(m) => obs_misc(m, bufs, &mut o),
+        RareCase::Device(d) => obs_device(d, bufs, &mut o),
+        RareCase::Charset(c) => obs_charset(c, bufs, &mut o),
     }
     o
 }
@@ -961,6 +967,16 @@ pub fn classes(c: &RareCase) -> Vec<String> {
         }
         RareCase::Aat(a) => v.push(format!("aat:{}", AAT_KINDS[(a.kind as usize) % AAT_KINDS.len()])),
         RareCase::Misc(m) => v.push(format!("misc:{}", MISC_KINDS[(m.kind as usize) % MISC_KINDS.len()])),
+        RareCase::Device(d) => {
+            v.push(format!("device:{}", DEVICE_WRAPS[(d.wrap as usize) % DEVICE_WRAPS.len()]));
+            v.push(format!("device:delta_format={}", match d.format { 1 | 2 | 3 => d.format.to_string(), 0x8000 => "0x8000".into(), _ => "reserved".into() }));
+            let (st, en) = d.sizes();
+            v.push(format!("device:range={}", if en == 0xFFFF && st <= en { "ends_at_0xFFFF" } else if st < en { "start<end" } else if st == en { "start==end" } else { "start>end" }));
+            v.push(format!("device:words={}", match d.word_adj { 0 => "exact", x if x < 0 => "short", _ => "long" }));
+        }
+        RareCase::Charset(c) => {
+            v.push(format!("charset:{}", CHARSET_KINDS[(c.kind as usize) % CHARSET_KINDS.len()]));
+        }
     }
     v
 }
@@ -1049,6 +1065,8 @@ pub fn strategy() -> impl Strategy<Value = RareCase> {
         3 => cmap_strategy().prop_map(RareCase::Cmap),
         2 => aat_strategy().prop_map(RareCase::Aat),
         2 => misc_strategy().prop_map(RareCase::Misc),
+        2 => device_strategy().prop_map(RareCase::Device),
+        2 => charset_strategy().prop_map(RareCase::Charset),
     ]
 }
 
@@ -1056,7 +1074,7 @@ pub fn stage(ctx: &Ctx, strict: bool) {
     ctx.note(
         "rare-formats-generated",
         serde_json::json!({
-            "generates": "structurally valid tables of formats absent from the corpus, hostile values in the fields that feed arithmetic: EBLC/CBLC+EBDT/CBDT (index subtable formats 1-5, image formats 1,2,5,6,7,8,9,17,18,19, several records per strike, empty/reversed/overlapping ranges, monotone/equal/decreasing/raw offsets), sbix, IFT sparse bit set with a 32-bit bias, cmap formats 0,2,4,6,8,10,12,13,14, AAT lookups 0/2/4/6/8/10 + (extended) state tables, post v2, hdmx, VORG, FDSelect 0/3/4, MVAR, STAT; each through its argument-taking helpers (BitmapSize::location, Ebdt/Cbdt::data, Strike::glyph_data, from_sparse_bit_set_bounded, map_codepoint/map_variant/iterators, skrifa Charmap, Lookup::value, StateTable::entry, glyph_name, record_for_size, font_index, metric_delta) with probe arguments in and around every range, plus the generic traversal",
+            "generates": "structurally valid tables of formats absent from the corpus, hostile values in the fields that feed arithmetic: EBLC/CBLC+EBDT/CBDT (index subtable formats 1-5, image formats 1,2,5,6,7,8,9,17,18,19, several records per strike, empty/reversed/overlapping ranges, monotone/equal/decreasing/raw offsets), sbix, IFT sparse bit set with a 32-bit bias, cmap formats 0,2,4,6,8,10,12,13,14, AAT lookups 0/2/4/6/8/10 + (extended) state tables, post v2, hdmx, VORG, FDSelect 0/3/4, MVAR, STAT, layout Device/VariationIndex tables (bare and inside Anchor format 3, CaretValue format 3, BaseCoord format 3, ValueRecord) with correlated start/end sizes and exact/short/long word arrays, CFF charsets (predefined ISOAdobe/Expert/ExpertSubset and custom formats 0/1/2) with glyph counts straddling every table length; each through its argument-taking helpers (BitmapSize::location, Ebdt/Cbdt::data, Strike::glyph_data, from_sparse_bit_set_bounded, map_codepoint/map_variant/iterators, skrifa Charmap, Lookup::value, StateTable::entry, glyph_name, record_for_size, font_index, metric_delta, Device::iter, Charset::string_id/iter) with probe arguments in and around every range, plus the generic traversal",
             "oracle": "C01: no panic/abort/hang; digest equal on a repeated call, at allocation offsets 1-3 and on a second thread (1/8 of the cases, release profile). C20: overflow/assertion panics only",
             "non_trivial": "the generated table parsed (root read Ok) and among the helper calls at least one returned a value (Ok/Some) and at least one an error/absence (Err/None): the case sits on a validation boundary; distinct by hash of the case",
         }),
@@ -2225,4 +2243,338 @@ fn misc_strategy() -> impl Strategy<Value = MiscCase> {
         pvec(h32(), 0..4),
     )
         .prop_map(|((kind, n, count_mode, raw), size_mode, raw2, words, recs, bytes, sorted, probes)| MiscCase { kind, n, count_mode, raw, size_mode, raw2, words, recs, bytes, sorted, probes })
+}
+
+// ---------------------------------------------------------------------------------------------
+// layout Device / VariationIndex tables: correlated (start_size, end_size, delta_format) and word counts
+
+pub const DEVICE_WRAPS: [&str; 5] = ["bare", "anchor3", "caret3", "basecoord3", "valuerecord"];
+
+#[derive(Clone, Debug, Serialize, Deserialize)]
+pub struct DeviceCase {
+    pub start: u16,
+    /// end_size: 0 start + k, 1 start, 2 start - k, 3 0xFFFF, 4 `end_raw`
+    pub rel: u8,
+    pub k: u16,
+    pub end_raw: u16,
+    /// 1, 2, 3, 0x8000 or a reserved value
+    pub format: u16,
+    pub words: Vec<u16>,
+    /// words written = true count for the range (unsaturated arithmetic) + word_adj
+    pub word_adj: i8,
+    pub wrap: u8,
+    /// second device of the wrappers that carry two (shares the fields, other format)
+    pub format2: u16,
+}
+impl DeviceCase {
+    pub fn sizes(&self) -> (u16, u16) {
+        let end = match self.rel % 5 {
+            0 => self.start.wrapping_add(self.k),
+            1 => self.start,
+            2 => self.start.wrapping_sub(self.k),
+            3 => 0xFFFF,
+            _ => self.end_raw,
+        };
+        (self.start, end)
+    }
+    fn one(&self, format: u16) -> Vec<u8> {
+        let (st, en) = self.sizes();
+        let per_word: u32 = match format {
+            1 => 8,
+            2 => 4,
+            3 => 2,
+            _ => 0,
+        };
+        let range = (en as u32).wrapping_add(1).saturating_sub(st as u32);
+        let true_words: i64 = if per_word == 0 { if format == 0x8000 { 0 } else { (self.k % 4) as i64 } } else { range.div_ceil(per_word) as i64 };
+        let n = true_words.saturating_add(self.word_adj as i64).clamp(0, 40_000) as usize;
+        let mut v = vec![];
+        p16(&mut v, st);
+        p16(&mut v, en);
+        p16(&mut v, format);
+        for i in 0..n {
+            p16(&mut v, if self.words.is_empty() { 0 } else { self.words[i % self.words.len()] });
+        }
+        v
+    }
+}
+pub fn device_bytes(d: &DeviceCase) -> Vec<u8> {
+    let dev = d.one(d.format);
+    let mut v = vec![];
+    match d.wrap % 5 {
+        0 => v = dev,
+        1 => {
+            // AnchorFormat3: format, x, y, xDeviceOffset, yDeviceOffset
+            let dev2 = d.one(d.format2);
+            p16(&mut v, 3);
+            p16(&mut v, d.k);
+            p16(&mut v, d.end_raw);
+            p16(&mut v, 10);
+            p16(&mut v, (10usize.wrapping_add(dev.len())).min(0xFFFF) as u16);
+            v.extend(dev);
+            v.extend(dev2);
+        }
+        2 | 3 => {
+            // CaretValueFormat3 / BaseCoordFormat3: format, coordinate, deviceOffset
+            p16(&mut v, 3);
+            p16(&mut v, d.k);
+            p16(&mut v, 6);
+            v.extend(dev);
+        }
+        _ => {
+            // ValueRecord with all four device offsets (value format 0x00F0), offsets from the start of the data
+            let dev2 = d.one(d.format2);
+            p16(&mut v, 8);
+            p16(&mut v, (8usize.wrapping_add(dev.len())).min(0xFFFF) as u16);
+            p16(&mut v, 8);
+            p16(&mut v, 0);
+            v.extend(dev);
+            v.extend(dev2);
+        }
+    }
+    v
+}
+fn obs_dev_or_var(r: Result<read_fonts::tables::layout::DeviceOrVariationIndex, ReadError>, o: &mut Obs) {
+    use read_fonts::tables::layout::DeviceOrVariationIndex;
+    if !o.r(&r) {
+        return;
+    }
+    match r.unwrap() {
+        DeviceOrVariationIndex::Device(dev) => obs_dev(&dev, o),
+        DeviceOrVariationIndex::VariationIndex(v) => {
+            o.d.u(v.delta_set_outer_index() as u64);
+            o.d.u(v.delta_set_inner_index() as u64);
+            o.d.u(v.delta_format() as u64);
+        }
+    }
+}
+fn obs_dev(dev: &read_fonts::tables::layout::Device, o: &mut Obs) {
+    o.d.u(dev.start_size() as u64);
+    o.d.u(dev.end_size() as u64);
+    o.d.u(dev.delta_format() as u64);
+    o.d.u(dev.delta_value().len() as u64);
+    let mut acc = 0u64;
+    let mut n = 0u64;
+    for x in dev.iter().take(IT) {
+        acc = acc.wrapping_mul(31).wrapping_add(x as u8 as u64);
+        n = n.wrapping_add(1);
+    }
+    o.d.u(acc);
+    o.d.u(n);
+    o.walk(dev);
+}
+fn obs_device(d: &DeviceCase, bufs: &[&[u8]], o: &mut Obs) {
+    use read_fonts::tables::layout::{Device, DeviceOrVariationIndex};
+    use read_fonts::tables::{base::BaseCoord, gdef::CaretValue, gpos::{AnchorTable, ValueFormat, ValueRecord}};
+    let fd = FontData::new(bufs[0]);
+    match d.wrap % 5 {
+        0 => {
+            let r = Device::read(fd);
+            if o.root(&r) {
+                obs_dev(&r.unwrap(), o);
+            }
+            obs_dev_or_var(DeviceOrVariationIndex::read(fd), o);
+            // the same table a few bytes short
+            for cut in [1usize, 2, 3] {
+                if let Some(short) = fd.slice(..bufs[0].len().saturating_sub(cut)) {
+                    obs_dev_or_var(DeviceOrVariationIndex::read(short), o);
+                }
+            }
+        }
+        1 => {
+            let r = AnchorTable::read(fd);
+            if !o.root(&r) {
+                return;
+            }
+            let a = r.unwrap();
+            o.walk(&a);
+            if let AnchorTable::Format3(a) = a {
+                for dv in [a.x_device(), a.y_device()].into_iter().flatten() {
+                    obs_dev_or_var(dv, o);
+                }
+            }
+        }
+        2 => {
+            let r = CaretValue::read(fd);
+            if !o.root(&r) {
+                return;
+            }
+            let c = r.unwrap();
+            o.walk(&c);
+            if let CaretValue::Format3(c) = c {
+                obs_dev_or_var(c.device(), o);
+            }
+        }
+        3 => {
+            let r = BaseCoord::read(fd);
+            if !o.root(&r) {
+                return;
+            }
+            let c = r.unwrap();
+            o.walk(&c);
+            if let BaseCoord::Format3(c) = c {
+                if let Some(dv) = c.device() {
+                    obs_dev_or_var(dv, o);
+                }
+            }
+        }
+        _ => {
+            for bits in [0x00F0u16, 0x0030, 0x00FF] {
+                let r = ValueRecord::read(fd, ValueFormat::from_bits_truncate(bits));
+                if !o.root(&r) {
+                    continue;
+                }
+                let vr = r.unwrap();
+                for dv in [vr.x_placement_device(fd), vr.y_placement_device(fd), vr.x_advance_device(fd), vr.y_advance_device(fd)].into_iter().flatten() {
+                    obs_dev_or_var(dv, o);
+                }
+            }
+        }
+    }
+}
+fn device_strategy() -> impl Strategy<Value = DeviceCase> {
+    let size = || prop_oneof![2 => Just(0u16), 2 => Just(1u16), 3 => 2u16..48, 2 => Just(0x7FFFu16), 2 => Just(0xFFFEu16), 2 => Just(0xFFFFu16), 3 => (0u16..40).prop_map(|k| 0xFFFFu16.wrapping_sub(k)), 1 => any::<u16>()];
+    let fmt = || prop_oneof![3 => Just(1u16), 3 => Just(2u16), 3 => Just(3u16), 2 => Just(0x8000u16), 1 => prop_oneof![Just(0u16), Just(4u16), Just(0x7FFFu16), Just(0x8001u16), Just(0xFFFFu16), any::<u16>()]];
+    (
+        size(),
+        prop_oneof![4 => Just(0u8), 1 => Just(1u8), 1 => Just(2u8), 3 => Just(3u8), 2 => Just(4u8)],
+        prop_oneof![6 => 0u16..40, 1 => 40u16..600, 1 => any::<u16>()],
+        size(),
+        fmt(),
+        pvec(prop_oneof![Just(0u16), Just(0x5555u16), Just(0xFFFFu16), Just(0x8000u16), Just(0x807Fu16), any::<u16>()], 0..4),
+        prop_oneof![5 => Just(0i8), 2 => Just(-1i8), 1 => Just(-2i8), 2 => Just(1i8), 1 => any::<i8>()],
+        0u8..5,
+        fmt(),
+    )
+        .prop_map(|(start, rel, k, end_raw, format, words, word_adj, wrap, format2)| DeviceCase { start, rel, k, end_raw, format, words, word_adj, wrap, format2 })
+}
+
+// ---------------------------------------------------------------------------------------------
+// CFF charsets: predefined tables and custom formats 0/1/2, glyph counts around every table length
+
+pub const CHARSET_KINDS: [&str; 6] = ["ISOAdobe", "Expert", "ExpertSubset", "format0", "format1", "format2"];
+/// lengths of the predefined tables (gid -> sid entries)
+pub const CHARSET_PREDEF_LEN: [u32; 3] = [229, 166, 87];
+
+#[derive(Clone, Debug, Serialize, Deserialize)]
+pub struct CharsetCase {
+    pub kind: u8,
+    /// (first sid, n_left) ranges for formats 1/2, sids for format 0
+    pub ranges: Vec<(u16, u16)>,
+    /// glyph count relative to the number of glyphs the charset covers: covered + delta (or raw)
+    pub delta: i8,
+    /// 0 relative, 1 one, 2 two, 3 65535, 4 raw
+    pub n_mode: u8,
+    pub n_raw: u32,
+    /// custom charsets: 0 exact offset, 1 offset beyond the data, 2 last byte cut, 3 unknown format byte
+    pub bad: u8,
+    pub probes: Vec<u32>,
+}
+impl CharsetCase {
+    fn covered(&self) -> u32 {
+        match self.kind % 6 {
+            k @ 0..=2 => CHARSET_PREDEF_LEN[k as usize],
+            3 => (self.ranges.len() as u32).wrapping_add(1),
+            4 => self.ranges.iter().fold(1u32, |a, r| a.wrapping_add((r.1 & 0xFF) as u32).wrapping_add(1)),
+            _ => self.ranges.iter().fold(1u32, |a, r| a.wrapping_add(r.1 as u32).wrapping_add(1)),
+        }
+    }
+    fn num_glyphs(&self) -> u32 {
+        match self.n_mode % 5 {
+            1 => 1,
+            2 => 2,
+            3 => 65535,
+            4 => self.n_raw,
+            _ => (self.covered() as i64).saturating_add(self.delta as i64).clamp(0, u32::MAX as i64) as u32,
+        }
+    }
+    /// offset handed to `Charset::new`
+    fn offset(&self, data_len: usize) -> usize {
+        match self.kind % 6 {
+            k @ 0..=2 => k as usize,
+            _ => {
+                if self.bad % 4 == 1 {
+                    data_len.wrapping_add(1)
+                } else {
+                    4
+                }
+            }
+        }
+    }
+}
+pub fn charset_bytes(c: &CharsetCase) -> Vec<u8> {
+    // four bytes of CFF header stand-in, then the charset data
+    let mut v = vec![1u8, 0, 4, 1];
+    let k = c.kind % 6;
+    if k < 3 {
+        return v;
+    }
+    v.push(if c.bad % 4 == 3 { 3u8.wrapping_add(c.delta as u8) } else { k - 3 });
+    for (first, n_left) in &c.ranges {
+        p16(&mut v, *first);
+        match k {
+            4 => v.push(*n_left as u8),
+            5 => p16(&mut v, *n_left),
+            _ => {}
+        }
+    }
+    if c.bad % 4 == 2 {
+        v.pop();
+    }
+    v
+}
+fn obs_charset(c: &CharsetCase, bufs: &[&[u8]], o: &mut Obs) {
+    use read_fonts::tables::postscript::Charset;
+    let fd = FontData::new(bufs[0]);
+    let n = c.num_glyphs();
+    let r = Charset::new(fd, c.offset(bufs[0].len()), n);
+    if !o.root(&r) {
+        return;
+    }
+    let cs = r.unwrap();
+    o.d.u(cs.num_glyphs() as u64);
+    let cov = c.covered();
+    let mut gids: BTreeSet<u32> = [0u32, 1, 2, 0xFFFF, 0x1_0000, u32::MAX].into_iter().collect();
+    for b in CHARSET_PREDEF_LEN.iter().copied().chain([cov, n]) {
+        for x in [b.wrapping_sub(2), b.wrapping_sub(1), b, b.wrapping_add(1)] {
+            gids.insert(x);
+        }
+    }
+    // cumulative range ends of the custom formats
+    let mut end = 1u32;
+    for r in c.ranges.iter().take(12) {
+        end = end.wrapping_add(if c.kind % 6 == 4 { (r.1 & 0xFF) as u32 } else if c.kind % 6 == 5 { r.1 as u32 } else { 0 }).wrapping_add(1);
+        for x in [end.wrapping_sub(1), end, end.wrapping_add(1)] {
+            gids.insert(x);
+        }
+    }
+    gids.extend(c.probes.iter().copied());
+    for g in gids.iter().take(96) {
+        let r = cs.string_id(GlyphId::new(*g));
+        if o.r(&r) {
+            o.d.u(r.unwrap().to_u16() as u64);
+        }
+    }
+    // full iteration, to the end
+    let mut acc = 0u64;
+    let mut k = 0u64;
+    for (g, sid) in cs.iter().take(IT) {
+        acc = acc.wrapping_mul(31).wrapping_add((g.to_u32() as u64) << 16 ^ sid.to_u16() as u64);
+        k = k.wrapping_add(1);
+    }
+    o.d.u(acc);
+    o.d.u(k);
+}
+fn charset_strategy() -> impl Strategy<Value = CharsetCase> {
+    let range = (prop_oneof![3 => 0u16..400, 1 => (0u16..8).prop_map(|k| 0xFFFFu16.wrapping_sub(k)), 1 => any::<u16>()], prop_oneof![5 => 0u16..6, 1 => Just(0xFFu16), 1 => Just(0xFFFFu16), 1 => any::<u16>()]);
+    (
+        0u8..6,
+        pvec(range, 0..6),
+        prop_oneof![3 => Just(0i8), 3 => Just(1i8), 2 => Just(-1i8), 1 => Just(2i8), 1 => Just(-2i8), 1 => any::<i8>()],
+        prop_oneof![8 => Just(0u8), 1 => 1u8..5],
+        h32(),
+        prop_oneof![8 => Just(0u8), 1 => 1u8..4],
+        pvec(prop_oneof![0u32..260, h32()], 0..4),
+    )
+        .prop_map(|(kind, ranges, delta, n_mode, n_raw, bad, probes)| CharsetCase { kind, ranges, delta, n_mode, n_raw, bad, probes })
 }
